@@ -57,6 +57,9 @@ def comb? : List String → Option (Comb × List String)
   | "maxt" :: r => some (.maxT, r)
   | "dset" :: r => some (.distinctSet, r)
   | "topk" :: k :: r => (parseNat? k).map (fun k => (.topK k, r))
+  | "usummod" :: m :: r => (parseInt? m).map (fun m => (.uSumMod m, r))
+  | "uunion" :: r => some (.uUnion, r)
+  | "umaxabs" :: r => some (.uMaxAbs, r)
   | _ => none
 
 def fanout? : List String → Option (Option Nat × List String)
